@@ -189,6 +189,20 @@ CHECKS = {
         'Trusts: the "line N, column M" pattern; marks of PyYAML\'s composer for the corrupted text. Hooks that install '
         'hand-made nodes without marks are outside the claim.',
         'DESIGN.md 3 C17'),
+    'C10': (
+        'exhaustive enumeration of (hierarchy shape x hook-defining subsets x mix-in placement x raising class x position x '
+        'concrete class); hook calls of the real load and dump functions are observed through stamps left on each node and '
+        'a call log, and compared with the rule computed from the model',
+        'Chains of 1-3 classes, forks with 2 and 3 children and a chain ending in a fork; _yatiml_savorize and '
+        '_yatiml_recognize on every pair of subsets of the classes, _yatiml_sweeten on every subset (dumps and dumps_json); an '
+        'unregistered mix-in carrying all three hooks attached to each class before/after its registered base; a savorize '
+        'raising SeasoningError at each class; positions top level, list item, dict value, class attribute, Union member; '
+        'userstring / yatiml.String / str-subclass chains and enums. Per loaded (dumped) object: exactly the own-body hooks of '
+        'the registered ancestors and of the class, each once, bases first, cls = defining class, savorize after the class\'s '
+        'recogniser and before construction, nothing from the mix-in; SeasoningError surfaces as RecognitionError.',
+        'Trusts: the generated hooks (stamps through the public Node API, call log). Ancestors behind an unregistered '
+        'intermediate class are not exercised.',
+        'DESIGN.md 3 C10'),
 }
 
 NOT_BUILT = {}
